@@ -38,7 +38,12 @@ Conventions of the translation (Model/ParticleInitRt.v fixes the meaning of ever
   * oracles (fields of the record `o`, the Section variables of the hand model): float(token), int(token),
     PDGID(x).is_valid, PDGID(x).charge, np.sqrt.
 Pinned textually (compared with the stored text, fail-closed): the parameter names and annotations of `__init__` and
-`__initialize_from_array` (they fix the types above), the decorators of the property getters / setters, `__slots__`.
+`__initialize_from_array` (they fix the types above); the annotations `float` / `bool` of the setter parameters and the
+return annotations (`float`, `Union[int, float]`, `bool`, `None`) of the reached functions; the decorators `@property` /
+`@<name>.setter`; `__slots__ = ["data_"]`; the class has no base class and its body holds only `__slots__` and function
+definitions, each name once; the module imports `numpy as np`, `PDGID` from `particle`, `warnings`.
+Not translated: the `pdg` setter (the constructor writes data_[9] directly and never goes through it) and every other
+property / method the constructor does not reach.
 Fail-closed: every statement / expression shape that is not listed in `Tr.stmts` / `Tr.ex` raises TranslateError with the
 source location.
 """
@@ -176,23 +181,34 @@ class Cls:
     def __init__(self, cls, path):
         self.path = path
         self.getters, self.setters, self.methods = {}, {}, {}
-        for n in cls.body:
-            if isinstance(n, ast.Assign) and ast.unparse(n.targets[0]) == "__slots__":
+        if cls.bases or cls.keywords or cls.decorator_list:
+            raise TranslateError("the class has base classes / decorators: attributes may come from elsewhere", cls, path)
+        slots = False
+        seen = set()
+        for n in strip_doc(cls.body):
+            if isinstance(n, ast.Assign) and len(n.targets) == 1 and ast.unparse(n.targets[0]) == "__slots__":
                 if ast.unparse(n.value) != "['data_']":
                     raise TranslateError("__slots__ changed: the object is no longer the data_ array alone", n, path)
-                self.slots = True
-            if not isinstance(n, ast.FunctionDef):
+                slots = True
                 continue
+            if not isinstance(n, ast.FunctionDef):
+                raise TranslateError("class-level statement not accepted: " + ast.unparse(n)[:60], n, path)
             decs = [ast.unparse(d) for d in n.decorator_list]
             if decs == ["property"]:
-                self.getters[n.name] = n
+                role, table = "get", self.getters
             elif decs == [n.name + ".setter"]:
-                self.setters[n.name] = n
+                role, table = "set", self.setters
             elif not decs:
-                self.methods[n.name] = n
+                role, table = "meth", self.methods
             else:
-                raise TranslateError("decorators not accepted: " + repr(decs), n, path)
-        if not getattr(self, "slots", False):
+                role, table = "other", {}          # not translatable; an error only if the constructor reaches it
+            # a name is defined once; only a getter and its setter share one (any other later definition would win)
+            prev = [r for r, x in seen if x == n.name]
+            if prev and not (prev == ["get"] and role == "set"):
+                raise TranslateError(f"`{n.name}` is defined more than once in the class", n, path)
+            seen.add((role, n.name))
+            table[n.name] = n
+        if not slots:
             raise TranslateError("__slots__ = ['data_'] not found", cls, path)
         self.done = {}          # coq name -> (ret type, is procedure, param types)
         self.busy = set()
@@ -944,8 +960,28 @@ class Tr:
         return text
 
 
+IMPORTS = ["import numpy as np", "from particle import PDGID", "import warnings"]
+
+
 def generate():
     tree, path = parse(SRC)
+    have = [ast.unparse(n) for n in tree.body if isinstance(n, (ast.Import, ast.ImportFrom))]
+    for imp in IMPORTS:
+        if imp not in have:
+            raise TranslateError(f"module-level `{imp}` not found: np / PDGID / warnings may mean something else")
+    for n in tree.body:
+        bound = []
+        if isinstance(n, (ast.FunctionDef, ast.ClassDef)):
+            bound = [n.name]
+        elif isinstance(n, (ast.Assign, ast.AnnAssign, ast.AugAssign)):
+            tgs = n.targets if isinstance(n, ast.Assign) else [n.target]
+            bound = [x.id for t in tgs for x in ast.walk(t) if isinstance(x, ast.Name)]
+        elif isinstance(n, (ast.Import, ast.ImportFrom)):
+            bound = [(a.asname or a.name) for a in n.names if ast.unparse(n) not in IMPORTS]
+        elif not (isinstance(n, ast.Expr) and isinstance(n.value, ast.Constant)):
+            raise TranslateError("module-level statement not accepted: " + ast.unparse(n)[:60], n, path)
+        if any(x in ("np", "PDGID", "warnings") for x in bound):
+            raise TranslateError("np / PDGID / warnings rebound at module level", n, path)
     cls = find_class(tree, "Particle")
     c = Cls(cls, path)
     c.need("meth", "__initialize_from_array", cls)
